@@ -144,31 +144,35 @@ macro_rules! all_ops {
     ($t:ty, $op:expr, $ws:expr, $c:expr) => {{
         let c = $c;
         let signed = $ws != 0;
-        // witness set 0: positive values; witness set 1 (signed and float types only): mixed signs, negative scalars.
+        let special = $ws == 2;
+        // witness set 0: positive values; witness set 1 (signed and float types only): mixed signs, negative scalars;
+        // witness set 2 (float types only): signed zeros and infinities as elements, zeros / infinity as scalars
+        // (codes 1000 = -0.0, 1001 = inf, 1002 = -inf, 1003 = +0.0) - a form that treats an "identity" scalar as a no-op
+        // differs from the primitive operator there (-0.0 + 0.0 is +0.0).
         // The witnesses are chosen at run time so that each operator form is compiled once per type.
-        let pick = |a: [i32; 8], b: [i32; 8]| -> ([$t; 6], $t, $t) {
-            let w = if signed { b } else { a };
+        let pick = |a: [i32; 8], b: [i32; 8], z: [i32; 8]| -> ([$t; 6], $t, $t) {
+            let w = if special { z } else if signed { b } else { a };
             ([c(w[0]), c(w[1]), c(w[2]), c(w[3]), c(w[4]), c(w[5])], c(w[6]), c(w[7]))
         };
         match $op {
             0 => {
-                let (e, sl, sr) = pick([1, 2, 3, 4, 5, 6, 10, 20], [-1, 2, -3, 4, -5, 0, -10, 20]);
+                let (e, sl, sr) = pick([1, 2, 3, 4, 5, 6, 10, 20], [-1, 2, -3, 4, -5, 0, -10, 20], [1000, 1003, 1, -2, 1000, 5, 1003, 1003]);
                 forms!($t, +, +=, e, sl, sr)
             }
             1 => {
-                let (e, sl, sr) = pick([7, 9, 12, 8, 11, 10, 3, 100], [-7, 9, -12, 8, 0, -10, -3, -100]);
+                let (e, sl, sr) = pick([7, 9, 12, 8, 11, 10, 3, 100], [-7, 9, -12, 8, 0, -10, -3, -100], [1000, 1003, 1, -2, 1000, 5, 1000, 1003]);
                 forms!($t, -, -=, e, sl, sr)
             }
             2 => {
-                let (e, sl, sr) = pick([1, 2, 3, 4, 5, 6, 3, 5], [-1, 2, -3, 4, -5, 0, -3, 5]);
+                let (e, sl, sr) = pick([1, 2, 3, 4, 5, 6, 3, 5], [-1, 2, -3, 4, -5, 0, -3, 5], [1000, 1003, 1, -2, 3, -5, 1003, 1000]);
                 forms!($t, *, *=, e, sl, sr)
             }
             3 => {
-                let (e, sl, sr) = pick([12, 24, 36, 48, 60, 6, 6, 120], [-12, 24, -36, 48, -60, 7, -5, -120]);
+                let (e, sl, sr) = pick([12, 24, 36, 48, 60, 6, 6, 120], [-12, 24, -36, 48, -60, 7, -5, -120], [1000, 1003, 1, -2, 3, -5, 1001, 1003]);
                 forms!($t, /, /=, e, sl, sr)
             }
             _ => {
-                let (e, sl, sr) = pick([12, 24, 36, 48, 60, 7, 5, 100], [-12, 24, -37, 48, -60, -7, 5, -100]);
+                let (e, sl, sr) = pick([12, 24, 36, 48, 60, 7, 5, 100], [-12, 24, -37, 48, -60, -7, 5, -100], [1000, 1003, 1, -2, 3, -5, 1001, 1]);
                 forms!($t, %, %=, e, sl, sr)
             }
         }
@@ -176,7 +180,7 @@ macro_rules! all_ops {
 }
 
 pub fn scalar_forms(ty: i128, op: i128, ws: i128) -> String {
-    let ws = if ty < 6 { 0 } else { ws };
+    let ws = if ty < 6 { 0 } else if ws == 2 && ty < 12 { 1 } else { ws };
     match ty {
         0 => all_ops!(u8, op, ws, |x: i32| x as u8),
         1 => all_ops!(u16, op, ws, |x: i32| x as u16),
@@ -190,8 +194,20 @@ pub fn scalar_forms(ty: i128, op: i128, ws: i128) -> String {
         9 => all_ops!(i64, op, ws, |x: i32| x as i64),
         10 => all_ops!(i128, op, ws, |x: i32| x as i128),
         11 => all_ops!(isize, op, ws, |x: i32| x as isize),
-        12 => all_ops!(f32, op, ws, |x: i32| x as f32 + 0.5),
-        13 => all_ops!(f64, op, ws, |x: i32| x as f64 + 0.25),
+        12 => all_ops!(f32, op, ws, |x: i32| match x {
+            1000 => -0.0f32,
+            1001 => f32::INFINITY,
+            1002 => f32::NEG_INFINITY,
+            1003 => 0.0f32,
+            _ => x as f32 + 0.5,
+        }),
+        13 => all_ops!(f64, op, ws, |x: i32| match x {
+            1000 => -0.0f64,
+            1001 => f64::INFINITY,
+            1002 => f64::NEG_INFINITY,
+            1003 => 0.0f64,
+            _ => x as f64 + 0.25,
+        }),
         _ => "INVALID".to_string(),
     }
 }
